@@ -109,6 +109,14 @@ CHECKS = {
         "bytes and submitted to the real VerifyBlockProof, plus byte-level tampering of larger tries; TLC judges each outcome.",
    note="known finding C10-ReweightSiblings (format-level)",
    technique="TLA+ adversary model checked by TLC + every TLC-explored tampering replayed on the real verifier + TLC trace validation"),
+ "C12": dict(level="model_checking", ref="DESIGN.md §5 C12",
+   text="WMPTPath.tla (one content, two observers) lets TLC enumerate every scenario of its scope - source content, collapse "
+        "level, requested key set with absent keys and with more than ten keys, mirrored update/delete sequences on requested keys "
+        "(19200 quick); these and seeded random scenarios over 32-byte keys of every root shape are executed on the real "
+        "GetPath/Deserialize; TLC checks export and import succeed, roots and weights of source and partial trie agree with each "
+        "other and with the specification's content after every mirrored step, and the bridge's independent root at the end.",
+   note="content-level specification; the term-level model of hash references (WMPTAlg) is future growth",
+   technique="TLA+ spec (WMPTPath.tla) + TLC-enumerated scenarios replayed into the Go code + TLC trace validation"),
 }
 
 NOT_APPLICABLE = []
